@@ -739,14 +739,27 @@ func (vr *voterecords) vote(
 		}
 	}
 
-	switch _, found, err := vr.getSuffrage(); {
+	switch suf, found, err := vr.getSuffrage(); {
 	case err != nil:
 		return false, false, errors.WithMessage(err, "vote")
-	case !found:
+	case !found || suf == nil:
 		vr.ballots[node.String()] = signfact
 
 		return true, false, nil
 	default:
+		// NOTE same check with countFromBallots(); signer and it's expels
+		// should be valid with suffrage.
+		if err := vr.isValidBallot(signfact, suf); err != nil {
+			delete(vr.vps, node.String())
+			delete(vr.expels, node.String())
+
+			vr.log.Trace().Err(err).
+				Interface("sign_fact", signfact).
+				Msg("invalid ballot with suffrage; ignored")
+
+			return false, false, nil
+		}
+
 		vr.voted[node.String()] = signfact
 
 		return true, true, nil
